@@ -6,7 +6,7 @@ import ast
 from typing import Dict, List, Optional, Set, Tuple
 
 from .. import oneshot
-from ..core import AnalysisError, ClassInfo, FuncInfo, ModuleInfo, Repo, attr_chain, call_name, unparse, walk_no_nested
+from ..core import deviates, AnalysisError, ClassInfo, FuncInfo, ModuleInfo, Repo, attr_chain, call_name, unparse, walk_no_nested
 from ..report import Ctx
 from ..skelrules import check_skeleton
 
@@ -215,26 +215,36 @@ def rule_s3(ctx: Ctx) -> None:
     if fs is None:
         raise AnalysisError("find_strategies vanished")
     flag = fs.params[1]
-    sel = [st for st in fs.body if isinstance(st, ast.If) and unparse(st.test) in (flag, f"not {flag}")]
-    if len(sel) != 1:
-        raise AnalysisError(f"{fs.where}: strategy-list selection not recognised")
-    s = sel[0]
-    pos_branch, neg_branch = (s.body, s.orelse) if unparse(s.test) == flag else (s.orelse, s.body)
-
     sel_names = set()
-
-    def chosen(branch) -> Optional[str]:
-        if len(branch) == 1 and isinstance(branch[0], (ast.Assign, ast.AnnAssign)) and branch[0].value is not None:
-            tgt = branch[0].target if isinstance(branch[0], ast.AnnAssign) else branch[0].targets[0]
+    p = n = None
+    s = None
+    # written as a conditional expression (the canonical form) or as an if/else statement
+    for st in fs.body:
+        if isinstance(st, (ast.Assign, ast.AnnAssign)) and isinstance(st.value, ast.IfExp) and unparse(st.value.test) in (flag, f"not {flag}"):
+            tgt = st.target if isinstance(st, ast.AnnAssign) else st.targets[0]
             sel_names.add(unparse(tgt))
-            return unparse(branch[0].value)
-        return None
+            p, n = (unparse(st.value.body), unparse(st.value.orelse)) if unparse(st.value.test) == flag else (unparse(st.value.orelse), unparse(st.value.body))
+            s = st
+    if s is None:
+        sel = [st for st in fs.body if isinstance(st, ast.If) and unparse(st.test) in (flag, f"not {flag}")]
+        if len(sel) != 1:
+            raise AnalysisError(f"{fs.where}: strategy-list selection not recognised")
+        s = sel[0]
+        pos_branch, neg_branch = (s.body, s.orelse) if unparse(s.test) == flag else (s.orelse, s.body)
 
-    p, n = chosen(pos_branch), chosen(neg_branch)
+        def chosen(branch) -> Optional[str]:
+            if len(branch) == 1 and isinstance(branch[0], (ast.Assign, ast.AnnAssign)) and branch[0].value is not None:
+                tgt = branch[0].target if isinstance(branch[0], ast.AnnAssign) else branch[0].targets[0]
+                sel_names.add(unparse(tgt))
+                return unparse(branch[0].value)
+            return None
+
+        p, n = chosen(pos_branch), chosen(neg_branch)
+    registry = {"all_enumeration_strategies", "fast_enumeration_strategies", "long_enumeration_strategies", "core_strategies"}
     if p == "all_enumeration_strategies" and n == "fast_enumeration_strategies":
         ctx.ok("C19-S3", fs.where, f"{flag} -> all strategies; not {flag} -> fast strategies", s, fs)
-    elif p is not None and n is not None:
-        ctx.violation("C19-S3", fs, s, f"{flag} selects `{p}`, not {flag} selects `{n}`: expected all_enumeration_strategies / fast_enumeration_strategies")
+    elif p in registry and n in registry:
+        ctx.violation("C19-S3", fs, s, f"{flag} selects `{p}`, not {flag} selects `{n}`: expected all_enumeration_strategies / fast_enumeration_strategies", robust=True)
     else:
         raise AnalysisError(f"{fs.where}: selection branches not recognised")
     loops = [st for st in fs.body if isinstance(st, ast.For)]
@@ -252,7 +262,15 @@ def rule_s3(ctx: Ctx) -> None:
     if ok and len(sel_names) == 1 and unparse(lp.iter) in sel_names:
         ctx.ok("C19-S3", fs.where, "same step for every selected strategy: construct on the basis, keep iff applies()", lp, fs)
     else:
-        ctx.violation("C19-S3", fs, lp, "the per-strategy step is not `obj = strategy(basis); if obj.applies(): keep obj` over the selected list")
+        def flat(st) -> str:
+            if isinstance(st, ast.If) and not st.orelse:
+                return f"if {unparse(st.test)}: " + "; ".join(flat(x) for x in st.body)
+            return unparse(st)
+        acc0 = next((unparse(x.func.value) for x in ast.walk(lp) if isinstance(x, ast.Call) and isinstance(x.func, ast.Attribute) and x.func.attr == "append"), "working_strategies")
+        o = obj or "strategy_object"
+        deviates(ctx, "C19-S3", fs, lp, f"for {var} in {unparse(lp.iter)}: " + "; ".join(flat(x) for x in lp.body),
+                 [f"for {var} in {nm}: {o} = {var}({fs.params[0]}); if {o}.applies(): {acc0}.append({o})" for nm in (sel_names or {"strategies"})],
+                 "the per-strategy step is not `obj = strategy(basis); if obj.applies(): keep obj` over the selected list", k=3)
     accs = [unparse(n.func.value) for n in ast.walk(lp) if isinstance(n, ast.Call) and isinstance(n.func, ast.Attribute) and n.func.attr == "append"]
     last = fs.body[-1]
     if len(accs) == 1 and isinstance(last, ast.Return) and last.value is not None and unparse(last.value) in (accs[0], f"list({accs[0]})"):
